@@ -177,3 +177,16 @@ func init() {
 		l.def("c10SchemaVersions", "List String", leanStrList(vers), "pkg/hook/config/schemas.go Schemas")
 	})
 }
+
+// C10 skeletons (tie T3): the order of steps of the loader and of the v1 conversion.
+func init() {
+	skeletonTargets = append(skeletonTargets,
+		skelTarget{Name: "HookConfig.LoadAndValidate", File: "pkg/hook/config/config.go", Recv: "HookConfig", Func: "LoadAndValidate",
+			Fields: []string{"Version"},
+			Calls:  []string{"NewDefaultVersionedUntyped", "Load", "ValidateConfig", "GetSchema", "ConvertAndCheck"}},
+		skelTarget{Name: "HookConfigV1.ConvertAndCheck.steps", File: "pkg/hook/config/config_v1.go", Recv: "HookConfigV1", Func: "ConvertAndCheck",
+			Fields: []string{"Settings", "OnStartup", "OnKubernetesEvents", "Schedules", "KubernetesValidating", "KubernetesMutating", "KubernetesConversion"},
+			Calls: []string{"CheckAndConvertSettings", "ConvertOnStartup", "CheckOnKubernetesEvent", "CheckIncludeSnapshots", "CheckSchedule", "ConvertSchedule",
+				"CheckAdmission", "convertValidating", "ValidateValidatingWebhooks", "convertMutating", "CheckConversion", "ConvertConversion", "MergeArrays", "WithEventTypes"}},
+	)
+}
